@@ -61,12 +61,29 @@ def dup_names(text, fmt):
     return dups
 
 
+def directed_duplicate(rng):
+    """a system importing `Gate` by bare name while two include directories both hold a Gate.comp (different
+    contents): the first directory on the command line must win under every hash seed"""
+    ga = progen.CompGen(rng, name="GateA", size=4, nports=(1, 1), port_lens=(4,)).build()
+    gb = progen.CompGen(rng, name="GateB", size=5, nports=(1, 1), port_lens=(4,)).build()
+    b = progen.Bundle()
+    dirs = ["lib_%s" % x for x in rng.sample(["a", "b", "q", "zz", "k9", "m"], 4)]
+    b.texts[dirs[0] + "/Gate.comp"] = progen.render_comp(ga, rng)
+    b.texts[dirs[1] + "/Gate.comp"] = progen.render_comp(gb, rng)
+    b.texts["top.sys"] = "declare system S:  -> \nimport Gate\ncomponent g1 = Gate: s0%s -> s1\ncomponent g2 = Gate: s1%s -> s2\n" % (
+        rng.choice(["", "*"]), rng.choice(["", "*"]))
+    b.entry = "top"
+    b.includes = dirs
+    b.directed = True
+    return b
+
+
 def run(st, tier, seed):
     res = Result("C18")
     res.rule = ("accepted programs x {pil, des} x configurations (hash seed, 0-4 earlier compiles in the process, invocation directory); "
                 "non-trivial = program with an anonymous region; distinct by (source, configuration)")
     rng = core.rng_for(seed, "c18")
-    n = 10 if tier == "quick" else 300
+    n = 9 if tier == "quick" else 300
     nconf = 4 if tier == "quick" else 14
     drv = core.Driver() if st.driver_ok else None
     reqs, meta = [], []
@@ -77,9 +94,12 @@ def run(st, tier, seed):
         # earlier compiles: other projects with the SAME relative file names (top.comp, tmpl0.comp, lib/..., sys*.sys)
         hist = [(progen.gen_system_bundle(rng, depth=rng.randint(1, 2), size=3, n_templates=2) if rng.random() < 0.5 else None)
                 or progen.gen_component_bundle(rng, size=4) for _ in range(4)]
+        if i % 4 == 0:
+            b = directed_duplicate(rng)
+            res.count("directed:duplicate-template-in-two-include-dirs")
         if b is None:
             continue
-        if any(k.endswith(".sys") for k in b.texts) and rng.random() < 0.6:
+        if not getattr(b, "directed", False) and any(k.endswith(".sys") for k in b.texts) and rng.random() < 0.6:
             # the same template name also exists in a directory later on the include list (several -I directories):
             # the search order must be the command-line order under every hash seed
             from props.c02 import shadowed
@@ -95,8 +115,9 @@ def run(st, tier, seed):
             for inc in b.includes:
                 os.makedirs(os.path.join(root, "proj", inc), exist_ok=True)
             outs = {}
+            seeds_cycle = ["0", "1", "12345", "random"]
             for fmt in ("pil", "des"):
-                for c in range(nconf):
+                for c in range(nconf if fmt == "pil" else max(2, nconf // 2)):
                     where = rng.choice(["proj", "root", "deep"])
                     cwd = {"proj": os.path.join(root, "proj"), "root": root, "deep": os.path.join(root, "proj", "deep", "er")}[where]
                     rel = os.path.relpath(os.path.join(root, "proj"), cwd)
@@ -110,7 +131,7 @@ def run(st, tier, seed):
                                          "includes": [os.path.relpath(os.path.join(root, "hist%d" % k, x), cwd) for x in hist[k].includes],
                                          "out": os.path.relpath(os.path.join(root, "hist%d" % k, "o.pil"), cwd),
                                          "save": os.path.relpath(os.path.join(root, "hist%d" % k, "o.save"), cwd)}) for k in range(nh)]}
-                    hs = rng.choice(["0", "1", "12345", "random"])
+                    hs = seeds_cycle[c % 4]      # every program sees all the hash seeds
                     env = dict(os.environ, PYTHONHASHSEED=hs, PYTHONPATH=core.REPO, PEPPER_REPO=core.REPO, PYTHONDONTWRITEBYTECODE="1")
                     p = subprocess.run([sys.executable, worker, json.dumps(job)], cwd=cwd, env=env, capture_output=True, text=True, timeout=300)
                     res.evaluations += 1
@@ -130,7 +151,7 @@ def run(st, tier, seed):
                     if d:
                         res.violations.append({"what": "object name defined twice: %r" % d[:3], "input": inp, "sig": "C18:duplicate-name", "cmd": "pepper-compiler"})
                     outs.setdefault(key, []).append((conf, canon_text(r["text"])))
-                    if drv is not None and where == "proj" and fmt == "pil":
+                    if drv is not None and where == "proj" and fmt == "pil" and not getattr(b, "directed", False):
                         rq = progen.compile_request(b, fmt, anon=r["anon_before"])
                         reqs.append(rq); meta.append((inp, impl.canon_lines(r["text"])))
             for key, lst in outs.items():
